@@ -412,6 +412,14 @@ def numeric_splice_probes():
         'rule r{reactant a{C labeled c10 H labeled h2 single bond to c10} '
         'break bond (c10,h2) increase number of radical (c10) increase '
         'number of radical (h2)}',
+        # a huge count next to the fractional electron count of an aromatic
+        # bond; the same huge count twice on one label
+        'rule r{reactant a{C labeled c1 C labeled c2 single bond to c1} form '
+        'aromatic bond (c1,c2) modify number of radical (c1, 2)}',
+        'rule r{reactant a{C labeled c1} modify number of radical (c1, 3) '
+        'modify number of radical (c1, 3)}',
+        'rule r{reactant a{C: labeled c1 C labeled c2 aromatic bond to c1} '
+        'break aromatic bond (c1,c2) modify number of radical (c1, 4)}',
     ]
     odd = ['\u00b2', '\u2082', '\u2460', '\u0663', '\uff13', '\u00bd', '\u2075',
            '\u0967']
@@ -423,7 +431,7 @@ def numeric_splice_probes():
                     out.append(b[:k] + o + b[k:])
                     out.append(b[:k + 1] + o + b[k + 1:])
                     out.append(b[:k] + o + b[k + 1:])
-        for n in (50, 4299, 4300, 4301, 5000, 20000):
+        for n in (50, 310, 400, 4299, 4300, 4301, 5000, 20000):
             for k, ch in enumerate(b):
                 if ch.isdigit():
                     out.append(b[:k] + ch * n + b[k + 1:])
